@@ -20,6 +20,11 @@ CHECKS = {
    text="Bits.v proves the inverse-pair law for every list of basic names (any order, repetitions), the set-operation laws for lor/land/lxor/implies and refusal of unknown names, for an arbitrary table of at most 32 distinct words; Properties_C10.v discharges the side conditions on the tables read from the current source (NoDup, length, constexpr) and checks every named accessor body against its documented word. The implementation is then run on all subsets, on seeded pairs, on every accessor and on reserved/near-miss/random unknown names and compared line by line with the extracted model.",
    note="Trusted: Coq kernel, extractor, extraction, c10_driver. Basic_specifier equality is pointer equality of logograms (as in the code); the harness obtains logograms through get_logogram.",
    ref="DESIGN.md §6 C10"),
+ "C03": dict(
+   technique="Coq proof (arena invariant by induction over allocation histories with lia; memory as a finite map and non-overlap of blocks; correctness of std::lower_bound over the regenerated, provably sorted reserved-word table; interning invariant for an arbitrary hash function) + extracted-model/implementation correspondence on word streams under ASan",
+   text="ArenaProofs.v proves, for every interning history, every byte content and every hash function: blocks lie inside their pools and never overlap, the characters read back from any returned String are the bytes interned whatever is interned later, two requests return the same node iff their contents are equal, earlier answers never change, and the empty and reserved words map to constants without allocating. The binary search is proved correct for the table read from the current source, which is checked to be strictly sorted. The extracted model and the real string pool then intern the same streams (boundary lengths, all byte values, near misses of reserved words, pool roll-over, oversize) and are compared on identity classes and on the (pool, offset) placement of every new string.",
+   note="Trusted: Coq kernel, extractor (known_words table), extraction, c03_driver (reads arena internals with #define private public), ASan. Modelled, not verified: operator new, std::map/forward_list buckets, std::hash (arbitrary function in the proofs), std::copy.",
+   ref="DESIGN.md §6 C03"),
 }
 
 NOT_YET = {}
